@@ -316,8 +316,48 @@ def sampleOp (j : Json) : R Json := do
   pure (obj [("rows", ofList ofNat s.1.rows), ("conds", ofList ofNat s.1.conds),
              ("rdm_idx", ofList ofNat s.2.1), ("pattern_idx", ofList ofNat s.2.2)])
 
+/-! ### round 4: a reuse session — the content of the objects is threaded through the calls -/
+
+def asState (j : Json) : R (SessState Float) := do
+  let v ← fld j "vecs" >>= asList (asList asFloat)
+  let m ← fld j "models" >>= asList (asList (asList asFloat))
+  pure { vecs := v, models := m }
+
+def ofState (s : SessState Float) : Json :=
+  obj [("vecs", ofList (ofList ofFloat) s.vecs), ("models", ofList (ofList (ofList ofFloat)) s.models)]
+
+/-- the request of a call with the data the session holds at that moment -/
+def withState (req : Json) (s : SessState Float) : Json :=
+  match fld req "data" with
+  | .ok d => req.setObjVal! "data" (d.setObjVal! "vecs" (ofList (ofList ofFloat) s.vecs))
+  | .error _ => req
+
+/-- `c04.session`: `{"state": s0, "steps": [{"kind": "call", "req": <c04.run request> | null} |
+    {"kind": "edit", "state": s}]}` → per call the answer of `c04.run` on the threaded content and the
+    content after the call (`Rsa.Eval.runSession`, effect of a call = `callEffect`, i.e. governed by the
+    regenerated write count) -/
+def sessionOp (j : Json) : R Json := do
+  let s0 ← fld j "state" >>= asState
+  let stepsJ ← fld j "steps" >>= asArr
+  let steps ← stepsJ.mapM (fun sj => do
+    let kind ← fld sj "kind" >>= asStr
+    if kind = "edit" then
+      let st ← fld sj "state" >>= asState
+      pure (SessStep.edit (κ := Json) (fun _ => st))
+    else
+      pure (SessStep.call (fldD sj "req" Json.null)))
+  let result : Json → SessState Float → Json := fun req s =>
+    if req.isNull then Json.null else
+      match runOp (withState req s) with
+      | .ok a => a
+      | .error e => obj [("model_error", Json.str e)]
+  let outs := runSession (fun _ s => callEffect centreDamage s) result steps s0
+  pure (obj [("calls", ofList (fun (o : Json × SessState Float) =>
+    obj [("answer", o.1), ("state", ofState o.2)]) outs)])
+
 def handle : Handler := fun op j =>
   match op with
+  | "c04.session" => some (sessionOp j)
   | "c04.run" => some (runOp j)
   | "c04.sample" => some (sampleOp j)
   | _ => none
